@@ -5,7 +5,7 @@ import glob, os
 R = os.path.dirname(os.path.dirname(os.path.abspath(__file__)))
 out = [open(os.path.join(R, "DESIGN.head.md")).read().rstrip(), "",
        "# Part II — what was built, per property (written by the builders of each check)", ""]
-for p in sorted(glob.glob(os.path.join(R, "design_parts", "C*.md"))):
+for p in sorted(glob.glob(os.path.join(R, "design_parts", "C*.md"))) + sorted(glob.glob(os.path.join(R, "design_parts", "X*.md"))):
     out.append(open(p).read().rstrip())
     out.append("")
 t = os.path.join(R, "DESIGN.tail.md")
